@@ -29,8 +29,8 @@ Definition seek_shape_ok : bool :=
 Definition next_shape_ok : bool :=
   list_eqb String.eqb next_assignments
     ["useA = false"; "penB = 0"; "useA = true"; "penA = 0"; "useA = ta <= tb";
-     "penB = 2 * (ta - it.lastT)"; "penB = initialPenalty"; "penA = 0";
-     "penA = 2 * (tb - it.lastT)"; "penA = initialPenalty"; "penB = 0"].
+     "penB = <formula>"; "penB = initialPenalty"; "penA = 0";
+     "penA = <formula>"; "penA = initialPenalty"; "penB = 0"].
 Close Scope string_scope.
 
 (* ---- correspondence and predicate on implementation observables ---- *)
